@@ -20,6 +20,8 @@ Helper lemmas: `GluonModel.Proofs.LayoutAlgo`, `GluonModel.Proofs.SpanArith`.
 import GluonModel.LayoutAlgo
 import GluonModel.SpanArith
 import GluonModel.Proofs.LayoutAlgo
+import GluonModel.Proofs.LayoutTotal
+import GluonModel.Proofs.LayoutBalance
 import GluonModel.Proofs.SpanArith
 
 namespace GluonModel.Props.C09
@@ -29,14 +31,14 @@ open GluonModel.LayoutAlgo GluonModel.SpanArith
 
 /-- Every `continue` of the loop at layout.rs:291 strictly decreases
     `2·|contexts| + (0 if the token is CloseBlock else 1)`. -/
-theorem layout_continue_decreases_partial (guard : Bool) (tok t' : Tok) (st st' : St)
+theorem layout_continue_decreases (guard : Bool) (tok t' : Tok) (st st' : St)
     (h : step guard tok st = .cont t' st') : measure t' st' < measure tok st :=
   Proofs.step_cont h
 
 /-- Hence one call of `layout_next_token` makes at most `measure + 1` passes through the loop:
     with that fuel the model never runs dry, for any state whatsoever (with or without the guard
     of :321 — the guard is about the *outer* iteration, see `layout_guard_needed`). -/
-theorem layout_terminates_partial (guard : Bool) (st : St) :
+theorem layout_call_terminates (guard : Bool) (st : St) :
     layoutNextToken guard st ≠ .outOfFuel :=
   Proofs.layoutNextToken_total guard st
 
@@ -46,12 +48,12 @@ theorem layout_terminates_partial (guard : Bool) (st : St) :
     initially, every call of `layout_next_token` preserves it, and under it neither `expect`
     (layout.rs:359, :475) fails.  So for every token stream and every number of calls the layout
     pass does not panic. -/
-theorem layout_never_panics_partial (input : List Tok) (eofTok : Tok) (fuel : Nat) :
+theorem layout_never_panics (input : List Tok) (eofTok : Tok) (fuel : Nat) :
     (layout input eofTok fuel).2 ≠ .panic :=
   Proofs.run_ok fuel (initial input eofTok) [] trivial
 
 /-- The invariant itself, for one call from any state satisfying it. -/
-theorem layout_invariant_partial (st : St) (hb : Proofs.BottomBlock st.stack) :
+theorem layout_invariant (st : St) (hb : Proofs.BottomBlock st.stack) :
     match layoutNextToken true st with
     | .ret _ st' => Proofs.BottomBlock st'.stack
     | .panic => False
@@ -59,6 +61,88 @@ theorem layout_invariant_partial (st : St) (hb : Proofs.BottomBlock st.stack) :
   have := Proofs.layoutNextToken_ok st hb
   revert this
   cases layoutNextToken true st <;> simp [Proofs.ResOk]
+
+/-! ## Layout: the whole iterator terminates, with a linear bound -/
+
+/-- Every call of `layout_next_token` that hands a token other than EOF to the parser strictly
+    decreases the potential `Proofs.pot` (token weights: real 40, queued OpenBlock 5, queued
+    CloseBlock 2, EOF 0; context weights: Block 5 (+1 while `emit_semi`), Let/Type 15, other 4;
+    plus a column-aware term for the next token: 6 if the stack is empty, 4 if it stands left of
+    the Block on top), from any state satisfying the stack invariant. -/
+theorem layout_call_decreases (st : St) (hb : Proofs.BottomBlock st.stack) (t : Tok) (st' : St)
+    (h : layoutNextToken true st = .ret t st') (hk : t.kind ≠ .eof) :
+    Proofs.pot st' < Proofs.pot st := by
+  have := Proofs.layoutNextToken_pot st hb
+  rw [h] at this
+  exact this hk
+
+/-- **Global termination.**  For EVERY finite token stream (any kinds, any positions, tokenizer
+    errors included) the sequence of `layout_next_token` calls ends — with EOF (`ok`) or with an
+    error — after at most `40·n + 7` calls, i.e. at most that many tokens are handed to the
+    parser for `n` input tokens; it neither panics nor hangs. -/
+theorem layout_total (input : List Tok) (eofTok : Tok) (fuel : Nat)
+    (hf : Proofs.layoutBound input.length ≤ fuel) :
+    (layout input eofTok fuel).2 = .ok ∨ ∃ e, (layout input eofTok fuel).2 = .err e := by
+  have h1 : (layout input eofTok fuel).2 ≠ .fuel :=
+    Proofs.run_total fuel (initial input eofTok) [] trivial
+      (Nat.lt_of_lt_of_le (Proofs.pot_initial input eofTok) hf)
+  have h2 : (layout input eofTok fuel).2 ≠ .panic := Proofs.run_ok fuel (initial input eofTok) [] trivial
+  have h3 : (layout input eofTok fuel).2 ≠ .hang := Proofs.run_ne_hang true fuel _ _
+  revert h1 h2 h3
+  cases (layout input eofTok fuel).2 <;> simp
+
+/-- The bound on the output: no more tokens than calls. -/
+theorem layout_output_bounded (input : List Tok) (eofTok : Tok) (fuel : Nat) :
+    (layout input eofTok fuel).1.length ≤ fuel := by
+  have : ∀ (fuel : Nat) (st : St) (acc : List Tok),
+      (run true fuel st acc).1.length ≤ acc.length + fuel := by
+    intro fuel
+    induction fuel with
+    | zero => intro st acc; simp [run]
+    | succ fuel ih =>
+      intro st acc
+      unfold run
+      split
+      · split
+        · simp
+        · have := ih ‹St› (‹Tok› :: acc); simp at this; omega
+      all_goals simp
+  have h := this fuel (initial input eofTok) []
+  simpa [layout] using h
+
+/-! ## Layout: what is true of OpenBlock / CloseBlock (replaces the naive `layout_balanced`) -/
+
+/-- After ANY number of calls (`fuel`), for every token stream:
+      CloseBlocks emitted + Block contexts on the stack ≤ OpenBlocks emitted + OpenBlocks pending
+    (pending = queued by the algorithm in `unprocessed_tokens`, or — for arbitrary streams that
+    contain raw OpenBlock tokens — not yet read).  So every `CloseBlock` handed to the parser has an
+    `OpenBlock` that was emitted earlier or is still queued, and every Block context still open
+    has one too.  It is an inequality, not "balanced": a stray closing token pops the top-level
+    Block without a `CloseBlock` (layout.rs:319-332; `)` gives `OpenBlock )`), and at an error or
+    unclosed delimiter Blocks stay open.  `runS` is `run` returning also the state it stopped in. -/
+theorem layout_blocks_covered (input : List Tok) (eofTok : Tok) (fuel : Nat) :
+    (Proofs.runS fuel (initial input eofTok) []).1 = (layout input eofTok fuel).1 ∧
+    Proofs.cntK .closeBlock (layout input eofTok fuel).1 +
+        Proofs.blocks (Proofs.runS fuel (initial input eofTok) []).2.2.stack ≤
+      Proofs.cntK .openBlock (layout input eofTok fuel).1 +
+        Proofs.Q (Proofs.runS fuel (initial input eofTok) []).2.2 := by
+  have h1 : (Proofs.runS fuel (initial input eofTok) []).1 = (layout input eofTok fuel).1 :=
+    congrArg Prod.fst (Proofs.runS_run fuel (initial input eofTok) [])
+  refine ⟨h1, ?_⟩
+  have := Proofs.runS_bal fuel (initial input eofTok) [] trivial
+    (by simp [Proofs.Bal, Proofs.cntK, initial, Proofs.blocks])
+  rw [← h1]
+  exact this
+
+/-- The step behind it: one call of `layout_next_token` from any state satisfying the stack
+    invariant; a returned `CloseBlock` is paid for by a Block context that disappears. -/
+theorem layout_call_blocks_covered (st : St) (hb : Proofs.BottomBlock st.stack) (t : Tok) (st' : St)
+    (h : layoutNextToken true st = .ret t st') :
+    Proofs.isCB t.kind + Proofs.blocks st'.stack + Proofs.Q st ≤
+      Proofs.isOB t.kind + Proofs.Q st' + Proofs.blocks st.stack := by
+  have := Proofs.layoutNextToken_bal st hb
+  rw [h] at this
+  exact this
 
 /-! ## Layout: the guard of layout.rs:321-332 is needed -/
 
@@ -90,7 +174,7 @@ theorem scan_terminates (c : Ctx) (first : Tok) (st : St) :
 
 /-- Hence no call of `layout_next_token` hangs in the scan: for every token stream and every
     number of calls the layout pass does not end with `hang` (with or without the guard). -/
-theorem layout_never_hangs_partial (guard : Bool) (input : List Tok) (eofTok : Tok) (fuel : Nat) :
+theorem layout_never_hangs (guard : Bool) (input : List Tok) (eofTok : Tok) (fuel : Nat) :
     (run guard fuel (initial input eofTok) []).2 ≠ .hang :=
   Proofs.run_ne_hang guard fuel _ _
 
@@ -123,6 +207,20 @@ theorem spans_inside_errors (lo hi : Nat) (hlh : lo ≤ hi) (e : RawErr) (h : e.
   SpanArith.Proofs.fromLalrpop_inside hlh e h
 
 /-! ## Non-vacuity -/
+
+-- the linear bound is not vacuous: a 5-token program, 207 calls allowed, ends `ok` after 12 tokens
+example : (layout [⟨.let_, ⟨0, 1, 1⟩, 4⟩, ⟨.other, ⟨0, 5, 5⟩, 6⟩, ⟨.equals, ⟨0, 7, 7⟩, 8⟩,
+                   ⟨.other, ⟨1, 3, 11⟩, 12⟩, ⟨.other, ⟨2, 1, 13⟩, 14⟩] ⟨.eof, ⟨2, 2, 14⟩, 14⟩
+                  (Proofs.layoutBound 5)).1.length = 12 := rfl
+-- the inequality of `layout_blocks_covered` can be strict: `)` leaves one OpenBlock, no CloseBlock
+example : Proofs.cntK .openBlock (layout [Proofs.rp] Proofs.eof0 100).1 = 1 ∧
+    Proofs.cntK .closeBlock (layout [Proofs.rp] Proofs.eof0 100).1 = 0 := ⟨rfl, rfl⟩
+-- and balanced on a well-formed program: 3 opens, 3 closes
+example : Proofs.cntK .openBlock (layout [⟨.let_, ⟨0, 1, 1⟩, 4⟩, ⟨.other, ⟨0, 5, 5⟩, 6⟩, ⟨.equals, ⟨0, 7, 7⟩, 8⟩,
+      ⟨.other, ⟨1, 3, 11⟩, 12⟩, ⟨.other, ⟨2, 1, 13⟩, 14⟩] ⟨.eof, ⟨2, 2, 14⟩, 14⟩ 300).1 =
+    Proofs.cntK .closeBlock (layout [⟨.let_, ⟨0, 1, 1⟩, 4⟩, ⟨.other, ⟨0, 5, 5⟩, 6⟩, ⟨.equals, ⟨0, 7, 7⟩, 8⟩,
+      ⟨.other, ⟨1, 3, 11⟩, 12⟩, ⟨.other, ⟨2, 1, 13⟩, 14⟩] ⟨.eof, ⟨2, 2, 14⟩, 14⟩ 300).1 := rfl
+
 
 -- a state that satisfies the invariant and is not initial
 example : Proofs.BottomBlock [⟨⟨0, 5, 5⟩, .let_⟩, ⟨⟨0, 1, 1⟩, .rec_⟩, ⟨⟨0, 1, 1⟩, .block true⟩] := by
